@@ -35,6 +35,16 @@ def world_class(spec):
     return getattr(importlib.import_module(mod), cls)
 
 
+def _die_with_parent():
+    """Linux: the forked run process is killed when its worker goes away (batch abandoned at the hard wall cap)."""
+    try:
+        import ctypes
+        import signal
+        ctypes.CDLL("libc.so.6", use_errno=True).prctl(1, signal.SIGKILL)     # PR_SET_PDEATHSIG
+    except Exception:
+        pass
+
+
 def _run_isolated(wc, prop, tier, rs, known, run_cap):
     """Execute one run in a forked child of the (pre-loaded) worker: every run starts from the same process state, so a
     defect that lives in module-level state of the code under test cannot leak from one run into the next, a replay of the
@@ -44,6 +54,7 @@ def _run_isolated(wc, prop, tier, rs, known, run_cap):
     if pid == 0:
         code = 0
         try:
+            _die_with_parent()
             os.close(rfd)
             r = core.execute_run(wc, prop, tier, rs, known=known, run_cap_s=run_cap, keep_events=False)
             data = json.dumps(r).encode()
@@ -109,6 +120,10 @@ def run_batch(prop, tier, verif_seed, n_runs, jobs, first=0, no_known=False, wal
     results = []
     harness_errors = []
     distinct_viol = {}
+    abandoned = []
+    # Budget: no run is started after wall_cap; runs still in flight get a grace period and are then abandoned (listed, not
+    # counted as explored, not an error) so that the batch always ends within its registered time limit.
+    hard_cap = wall_cap + max(45.0, 0.08 * wall_cap)
     if jobs <= 1:
         for ch in chunks:
             if time.time() - t0 > wall_cap:
@@ -136,12 +151,19 @@ def run_batch(prop, tier, verif_seed, n_runs, jobs, first=0, no_known=False, wal
                 submit_next()
             while pending:
                 done = None
+                left = hard_cap - (time.time() - t0)
                 try:
-                    for f in as_completed(list(pending), timeout=run_cap * chunk + 60):
+                    if left <= 0:
+                        raise TimeoutError("hard wall cap")
+                    for f in as_completed(list(pending), timeout=min(run_cap * chunk + 60, left)):
                         done = f
                         break
-                except Exception as e:  # timeout: a worker hangs beyond every cap
-                    harness_errors.append(f"worker timeout: {e}")
+                except Exception as e:  # timeout
+                    if time.time() - t0 >= hard_cap - 1:
+                        for chq in pending.values():
+                            abandoned.extend(chq)
+                    else:               # a worker hangs beyond every per-run cap
+                        harness_errors.append(f"worker timeout: {e}")
                     for p in list(ex._processes.values()):
                         try:
                             p.kill()
@@ -167,7 +189,7 @@ def run_batch(prop, tier, verif_seed, n_runs, jobs, first=0, no_known=False, wal
     wall = time.time() - t0
     return {"prop": prop, "tier": tier, "verif_seed": verif_seed, "results": results, "wall_s": wall,
             "harness_errors": harness_errors, "world": spec["world"], "planned_runs": n_runs, "jobs": jobs,
-            "world_cls": wc}
+            "world_cls": wc, "abandoned": sorted(abandoned)}
 
 
 def report(batch, no_known=False, do_minimise=True, write_evidence=True):
@@ -315,6 +337,10 @@ def main(argv=None):
     steps = sum(r["steps"] for r in batch["results"])
     print(f"SUMMARY property={a.prop} tier={a.tier} runs={n}/{batch['planned_runs']} steps={steps} "
           f"wall_s={batch['wall_s']:.1f} runs_per_hour={int(n / max(batch['wall_s'], 1e-9) * 3600)} exit={code}")
+    if batch.get("abandoned"):
+        ab = batch["abandoned"]
+        print(f"NOTE property={a.prop} {len(ab)} runs in flight when the time budget of the tier ended were abandoned (not explored, not counted): "
+              f"indices {ab[0]}..{ab[-1]}; re-run them with --first {ab[0]} --runs {ab[-1] - ab[0] + 1}")
     if ev:
         print(f"evidence: {ev}")
     return code
